@@ -255,6 +255,7 @@ fn explore(ctx: &Ctx, rep: &mut Report) {
 
     // ---- (ii) chunk-boundary placements
     let n = (FILLERS.len() * LENS.len()) as u64;
+    let n_second: usize = ctx.pick(6, SPECIALS.len());
     let r = par_range_in(ctx, "writers/two-specials-at-chunk-boundaries", n, 1, |i, rep| {
         let filler = FILLERS[i as usize / LENS.len()];
         let len = LENS[i as usize % LENS.len()];
@@ -263,7 +264,7 @@ fn explore(ctx: &Ctx, rep: &mut Report) {
             for &s1 in &SPECIALS {
                 for &d in &DELTAS {
                     let p2 = p1 + d;
-                    for &s2 in &SPECIALS {
+                    for &s2 in &SPECIALS[..n_second] {
                         if p2 >= len && s2 != SPECIALS[0] {
                             continue; // second special falls outside: one representative only
                         }
@@ -281,7 +282,7 @@ fn explore(ctx: &Ctx, rep: &mut Report) {
     });
     rep.merge(r);
     if std::env::var("VERIF_TIMING").is_ok() { eprintln!("  t={:.1}s", ctx.start.elapsed().as_secs_f64()); }
-    rep.mark_exhaustive("writers/two-specials-at-chunk-boundaries", "fillers {a, é, €, 😀} x lengths {15,16,17,31,32,33,47,48,49,64,70} (characters) x first special at every position x second special at p+{1,2,15,16,17,31,32,33}; 14 specials each");
+    rep.mark_exhaustive("writers/two-specials-at-chunk-boundaries", "fillers {a, é, €, 😀} x lengths {15,16,17,31,32,33,47,48,49,64,70} (characters) x first special at every position x second special at p+{1,2,15,16,17,31,32,33}; 14 first specials x 6 (quick) / 14 (thorough) second specials");
 
     // ---- (iii) scanner
     let maxlen: usize = ctx.pick(66, 100);
